@@ -149,6 +149,25 @@ func scripted() []script {
 			{K: "ConvertCoin", T: 0, A: 100, B: aERC20, X: 50},
 			{K: "ConvertDenom", T: 2, A: 100, B: aERC20, Src: 0, Tgt: 1, X: 50},
 		}},
+		{"C04 C05 C06", "two tokens of one chain with a pending batch each, the higher-nonce batch executed first", sp, []Op{
+			{K: "SendToFx", C: 1, T: 1, A: 100, X: 1000},
+			{K: "SendToExternal", C: 1, T: 1, A: 100, X: 100, Y: 5},
+			{K: "RequestBatch", C: 1, T: 1},
+			{K: "SendToExternal", C: 1, T: 0, A: 101, X: 50, Y: 5},
+			{K: "RequestBatch", C: 1, T: 0},
+			{K: "BatchExecuted", C: 1, T: 0, ID: 2},
+			{K: "Cancel", C: 1, A: 100, ID: 1},
+			{K: "BatchExecuted", C: 1, T: 1, ID: 1},
+		}},
+		{"C08", "module-owned pair with two aliases: convert-denom base->alias and alias->other alias", sp, []Op{
+			{K: "SendToFx", C: 1, T: 1, A: 100, X: 1000},
+			{K: "SendToFx", C: 2, T: 1, A: 100, X: 500},
+			{K: "BridgeCallMsg", C: 1, A: 100, B: 100, Toks: [][2]int64{{1, 400}}},
+			{K: "BridgeCallResult", C: 1, ID: 1, Flag: false},
+			{K: "ConvertDenom", T: 1, A: 100, B: 100, Src: 0, Tgt: 1, X: 300},
+			{K: "ConvertDenom", T: 1, A: 100, B: 100, Src: 1, Tgt: 2, X: 100},
+			{K: "ConvertDenom", T: 1, A: 100, B: 101, Src: 1, Tgt: 0, X: 50},
+		}},
 		{"C04", "withdrawable-refuted (older-rule refund parks the bridge denom)", sp, []Op{
 			{K: "SendToFx", C: 1, T: 1, A: 100, X: 1000},
 			{K: "BridgeCallMsg", C: 1, A: 100, B: 100, Toks: [][2]int64{{1, 400}}},
@@ -453,9 +472,11 @@ func (w *World) perform(o *Op, record func(Op, error), mon *Monitor) perfResult 
 		})
 		if !ok {
 			record(*o, obsFail)
+			mon.batchRefused(*o)
 			return perfResult{}
 		}
 		record(*o, nil)
+		w.dropBatches(func(b liveBatch) bool { return !(b.C == c && b.T == o.T && b.Nonce <= uint64(o.ID)) })
 		return perfResult{ok: true, executed: true}
 	case "BridgeCallResult":
 		h := nextH()
